@@ -232,6 +232,11 @@ def _int_lit(t):
         return None
 
 
+def _poly_nonneg(p):
+    """sufficient test for p >= 0 when every symbol of p is a non-negative integer: no negative coefficient"""
+    return all(c >= 0 for c in p.t.values())
+
+
 def _norm_cond(c):
     """one spelling per condition: not(eq) -> ne, not(ne) -> eq, not(not x) -> x, not(lt) -> ge ..."""
     FLIP = {"eq": "ne", "ne": "eq", "lt": "ge", "ge": "lt", "gt": "le", "le": "gt"}
@@ -420,6 +425,10 @@ def as_poly(v):
     raise OutsideFragment(f"value {type(v).__name__} used as ring element")
 
 
+class Undecidable(Exception):
+    """the unit cannot be decided (not an OutsideFragment: a trace-only unit must not havoc its way past this)"""
+
+
 class Return(Exception):
     def __init__(self, v):
         self.v = v
@@ -493,6 +502,60 @@ class Interp:
     def fail(self, node, why):
         sp = node.get("span") if isinstance(node, dict) else None
         raise OutsideFragment(f"{why} at {self.src_name}:{sp}")
+
+    # -------- length preconditions of slice / index operations on vectors of unknown length (opt-in: consts["__track_len"])
+    def _len_bounds(self, base, lower=True):
+        """bounds on len(base) known on THIS path (polynomials in the non-negative integer symbols of the unit, e.g. the domain size n):
+        exact lengths established by `resize`, decided comparisons of the path, and explicit `if len < k { return Err }` exits"""
+        key = canon(VOpaque("len", [base]))
+        out = []
+        ex = getattr(self.ctx, "len_exact", {}).get(canon(base))
+        if ex is not None:
+            out.append(ex)
+        conds = [(c, t) for c, t in self.path_conds] + [(e[1], False) for e in self.ctx.exits if e[0] == "err_if" and not isinstance(e[1], str)]
+        for c, taken in conds:
+            c = _norm_cond(c if taken else VOpaque("not", [c]))
+            if not (isinstance(c, VOpaque) and len(c.args) == 2):
+                continue
+            l, r = c.args
+            try:
+                if canon(l) == key:
+                    b = as_poly(r)
+                    rel = c.name
+                elif canon(r) == key:
+                    b = as_poly(l)
+                    rel = {"lt": "gt", "gt": "lt", "le": "ge", "ge": "le", "eq": "eq"}.get(c.name)
+                else:
+                    continue
+            except OutsideFragment:
+                continue
+            if lower and rel in ("ge", "eq"):
+                out.append(b)
+            if lower and rel == "gt":
+                out.append(b + 1)
+            if not lower and rel in ("le", "eq"):
+                out.append(b)
+            if not lower and rel == "lt":
+                out.append(b - 1)
+        hook = self.contracts.get("__len_lower_bound" if lower else "__len_upper_bound")
+        if hook is not None:
+            hb = hook(self, base)
+            if hb is not None:
+                out.append(as_poly(hb))
+        return out
+
+    def need_len(self, base, req, what):
+        """an operation that panics unless len(base) >= req: the requirement must follow from what is known on this path"""
+        if not self.consts.get("__track_len"):
+            return
+        req = as_poly(req)
+        if isinstance(base, VOpaque) and base.name.startswith("havoc:"):
+            raise Undecidable(f"{what}: the vector ({base.name}) was produced by a statement outside the fragment, its length facts are unknown")
+        for b in self._len_bounds(base, True):
+            if _poly_nonneg(b - req):
+                return
+        msg = f"{what}: needs len({canon(base)[:60]}) >= {req.show()} (would panic otherwise) - not established on this path"
+        self.ctx.len_unmet = getattr(self.ctx, "len_unmet", []) + [msg]
 
     def has_cfg_test(self, node):
         for a in node.get("attrs", []) or []:
@@ -769,6 +832,12 @@ class Interp:
                 idx = self.expr(e["l"]["i"], env)
                 if not isinstance(idx, int):
                     self.fail(e, "symbolic index into coefficient vector")
+                if not base.known_len and self.consts.get("__track_len"):
+                    org = getattr(base, "origin", None)
+                    if org is not None:
+                        self.need_len(org[0], as_poly(org[1]) + idx + 1, f"index [{idx}] of the tail slice starting at {as_poly(org[1]).show()}")
+                    else:
+                        self.ctx.len_unmet = getattr(self.ctx, "len_unmet", []) + [f"index [{idx}] into a vector of unknown length"]
                 r = as_poly(self.expr(e["r"], env))
                 base.poly = base.poly + (r if op == "+=" else -r) * base.pos(idx)
                 return UNIT
@@ -950,7 +1019,9 @@ class Interp:
             hi = (as_poly(lo0) + as_poly(i.hi)) if i.hi is not None else hi0
             return VOpaque("slice", [b0, lo, hi])
         if isinstance(b, (Sym, VOpaque)) and isinstance(i, VRange):
-            return VOpaque("slice", [b, as_poly(i.lo) if i.lo is not None else C(0), "end" if i.hi is None else as_poly(i.hi)])
+            lo_ = as_poly(i.lo) if i.lo is not None else C(0)
+            self.need_len(b, as_poly(i.hi) if i.hi is not None else lo_, f"slice [{lo_.show()}..{as_poly(i.hi).show() if i.hi is not None else ''}]")
+            return VOpaque("slice", [b, lo_, "end" if i.hi is None else as_poly(i.hi)])
         if isinstance(b, VOpaque) and isinstance(i, (int, Sym, VOpaque)):
             return VOpaque("idx", [b, i])
         if isinstance(b, VCoeffVec) and isinstance(i, int):
@@ -1843,7 +1914,25 @@ class Interp:
         if m == "ok_or" and isinstance(recv, VOpaque) and recv.name == "get" and len(args) == 1:
             return ("fallible", f"{recv.canon()} is None => Err({canon_err(args[0])})", VOpaque("some_of", [recv]))
         if m == "len" and isinstance(recv, (Sym, VOpaque, Poly)) and not args:
-            return VOpaque("len", [recv])
+            ex = getattr(self.ctx, "len_exact", {}).get(canon(recv)) if isinstance(recv, (Sym, VOpaque)) else None
+            return ex if ex is not None else VOpaque("len", [recv])
+        if m == "resize" and isinstance(recv, (Sym, VOpaque)) and len(args) == 2 and self.consts.get("__track_len") \
+                and not (isinstance(recv, VOpaque) and recv.name.startswith("havoc:")):
+            # `v.resize(k, 0)` on a coefficient vector: the SAME polynomial (zero padding) provided nothing is cut off, i.e. len(v) <= k
+            # is known on this path; afterwards len(v) == k exactly
+            k = as_poly(args[0])
+            try:
+                zero_fill = as_poly(args[1]).is_zero()
+            except OutsideFragment:
+                zero_fill = False
+            if not zero_fill:
+                raise OutsideFragment("resize with a non-zero fill value")
+            if not any(_poly_nonneg(k - ub) for ub in self._len_bounds(recv, False)):
+                raise OutsideFragment("resize that may truncate the vector")
+            if not hasattr(self.ctx, "len_exact"):
+                self.ctx.len_exact = {}
+            self.ctx.len_exact[canon(recv)] = k
+            return UNIT
         if m == "for_each" and isinstance(recv, VSymIter) and isinstance(args[0], VClosure):
             # `xs.iter().for_each(|x| B)` over a slice of unknown length: B is executed once on the generic
             # element xs[*]; its transcript events are recorded as ONE event "for every element, in order".
@@ -2074,6 +2163,10 @@ class Interp:
             nv = self.arith({"mul_assign": "*", "add_assign": "+", "sub_assign": "-"}[m], recv, args[0], e)
             self.assign(e["recv"], nv, env)
             return UNIT
+        if m in ("unwrap", "expect") and isinstance(recv, tuple) and recv and recv[0] == "fallible":
+            # `.unwrap()` on the result of a fallible callee: a PANIC exit on the callee's error, then the Ok payload
+            self.ctx.exits.append(("panic_if_err", recv[1]))
+            return recv[2]
         # ---- contracts (by method name, optionally qualified by receiver hint)
         for key in self.method_keys(e, recv, m):
             if key in self.contracts:
@@ -2238,7 +2331,7 @@ def _has_mutation(node):
             return True
         if node.get("k") == "binary" and node.get("op", "").endswith("=") and node["op"] not in ("==", "!=", "<=", ">="):
             return True
-        if node.get("k") == "mcall" and node.get("m") in ("push", "extend", "extend_from_slice", "copy_from_slice") \
+        if node.get("k") == "mcall" and node.get("m") in ("push", "extend", "extend_from_slice", "copy_from_slice", "resize", "truncate", "pop", "clear", "insert", "remove") \
                 and node["recv"].get("k") == "path" and len(node["recv"].get("segs", [])) == 1:
             return True
         return any(_has_mutation(v) for v in node.values())
@@ -2626,6 +2719,12 @@ def run_unit(root, unit, contracts, seed=0, perturb=None):
               "status": "discharged" if ok else "failed", "detail": detail, "cex": cex, "backend": "ringcheck"}
         if not ok and cex and unit.replay and k in ("result", "msm", "v", "value", "normalised"):
             ob["recipe"] = unit.replay
+        sc_ = getattr(unit, "scenarios", {}).get(k)
+        if not ok and sc_:
+            # a trace obligation has no polynomial counterexample; the unit names a concrete INPUT SCENARIO (candidate failing input)
+            # that is executed against the real code: the violation counts as replayed only if that run really fails
+            ob["recipe"] = {"kind": "scenario", "src": sc_["src"]}
+            ob["cex"] = {"scenario": sc_["what"]}
         obs.append(ob)
     return obs, calls
 
